@@ -6,11 +6,12 @@
    - same_outcome_same_step: the step depends on the bytes only through the loader's
                              outcome (messages, corrupted?) — two streams that differ
                              only in their invalid part are indistinguishable;
-   - valid_prefix / prefix_loads (under load_local, the hypothesis of C11's chunking
-                             theorem): feeding only the bytes of the messages that were
-                             loaded gives the same messages and no corruption;
+   - valid_prefix / prefix_loads (by Proofs/LoadLocal.v: load_local_from_have, locality of
+                             load_message under the framing decision of have_message):
+                             feeding only the bytes of the messages that were loaded
+                             gives the same messages and no corruption;
    - isolation             : run (h1 ++ ERead c s :: h2) = run (h1 ++ ERead c (valid prefix of s) :: EEof c :: h2 without c). *)
-From DV Require Import Lib.Base Wire.Message Proofs.LoaderProofs Robust.Bus Proofs.RobustBase.
+From DV Require Import Lib.Base Wire.Message Proofs.LoaderProofs Proofs.LoadLocal Robust.Bus Proofs.RobustBase.
 From Coq Require Import ZArith ZifyBool ZifyN ZifyNat Arith.
 Local Open Scope N_scope.
 
@@ -39,26 +40,6 @@ Lemma qm_empty_buf f l : l_buf l = [] -> queue_messages f l = l.
 Proof. intros H. destruct f; [reflexivity|]. rewrite qm_S. destruct (l_corrupted l); [reflexivity|]. rewrite H. reflexivity. Qed.
 
 Section Prefix.
-  Hypothesis Hlocal : load_local.
-
-  Lemma load_local_trunc le fl hl bl fds d n m :
-    hl + bl <= nlen d -> (N.to_nat (hl + bl) <= n)%nat ->
-    load_message le fl hl bl fds d = inl m -> load_message le fl hl bl fds (firstn n d) = inl m.
-  Proof.
-    intros Hfit Hn Hl.
-    set (d0 := firstn (N.to_nat (hl + bl)) d).
-    assert (Hd0 : hl + bl <= nlen d0). { unfold d0, nlen. rewrite firstn_length. unfold nlen in Hfit. lia. }
-    (* d = d0 ++ rest, firstn n d = d0 ++ rest' *)
-    assert (E1 : d = d0 ++ skipn (N.to_nat (hl + bl)) d) by (symmetry; apply firstn_skipn).
-    assert (E2 : firstn n d = d0 ++ firstn (n - N.to_nat (hl + bl)) (skipn (N.to_nat (hl + bl)) d)).
-    { unfold d0. rewrite <- (firstn_skipn (N.to_nat (hl + bl)) (firstn n d)). f_equal.
-      - rewrite firstn_firstn. f_equal. lia.
-      - rewrite skipn_firstn_comm. reflexivity. }
-    pose proof (Hlocal le fl hl bl fds d0 (skipn (N.to_nat (hl + bl)) d) Hd0) as H1. rewrite <- E1, Hl in H1.
-    destruct (load_message le fl hl bl fds d0) as [m0|r0] eqn:Hl0; [|contradiction]. subst m0.
-    pose proof (Hlocal le fl hl bl fds d0 (firstn (n - N.to_nat (hl + bl)) (skipn (N.to_nat (hl + bl)) d)) Hd0) as H2.
-    rewrite <- E2, Hl0 in H2. destruct (load_message le fl hl bl fds (firstn n d)) as [m2|r2]; [subst m2; reflexivity|contradiction].
-  Qed.
 
   (* on the eaten bytes alone, queue_messages loads exactly the same messages, does not
      get corrupted, and leaves an empty buffer *)
@@ -116,7 +97,10 @@ Section Prefix.
       rewrite skipn_all2 by (rewrite firstn_length; lia). reflexivity. }
     assert (Estep : queue_messages (S f) (with_buf l (firstn n (l_buf l))) = queue_messages f (with_buf l1 (firstn k1 (l_buf l1)))).
     { rewrite qm_S. unfold with_buf. cbn [l_corrupted l_buf l_max l_fds l_msgs]. rewrite Hcor, Hshort', Hh'.
-      rewrite (load_local_trunc le fl hl bl (l_fds l) (l_buf l) n m Hfit ltac:(lia) Hl). rewrite Hsk. reflexivity. }
+      pose proof (load_local_from_have (l_max l) le fl hl bl (l_fds l) (firstn n (l_buf l)) (skipn n (l_buf l)) Hh') as Hloc.
+      rewrite firstn_skipn, Hl in Hloc.
+      destruct (load_message le fl hl bl (l_fds l) (firstn n (l_buf l))) as [m0|r0]; [subst m0|contradiction].
+      rewrite Hsk. reflexivity. }
     rewrite Estep. exact IH.
   Qed.
 End Prefix.
@@ -257,7 +241,6 @@ Proof.
 Qed.
 
 Section ValidPrefix.
-  Hypothesis Hlocal : load_local.
 
   Theorem valid_prefix_feed l d :
     at_rest l ->
@@ -273,7 +256,7 @@ Section ValidPrefix.
     - (* nothing eaten *)
       rewrite He. cbn [Nat.sub firstn]. rewrite app_nil_r, loader_eta, Hrest.
       destruct (eaten_zero f l1 He) as [E _]. rewrite E. cbn [l1 l_msgs]. split; [reflexivity|exact Hcor].
-    - pose proof (prefix_loads Hlocal f l1 ltac:(unfold f; lia) Hcor) as (H1 & H2 & _). fold e in H1, H2.
+    - pose proof (prefix_loads f l1 ltac:(unfold f; lia) Hcor) as (H1 & H2 & _). fold e in H1, H2.
       assert (E : l_buf l ++ firstn (e - length (l_buf l)) d = firstn e (l_buf l1)).
       { cbn [l1 l_buf]. rewrite firstn_app. rewrite (@firstn_all2 _ e (l_buf l)) by lia. reflexivity. }
       set (lt := mkLoader (l_buf l ++ firstn (e - length (l_buf l)) d) (l_corrupted l) (l_reason l) (l_msgs l) (l_fds l) (l_max l)).
@@ -445,8 +428,7 @@ Section Iso.
   Qed.
 
   (* ---- isolation ------------------------------------------------------------------ *)
-  Section WithLocality.
-    Hypothesis Hlocal : load_local.
+  Section Bytes.
 
     (* one corrupting read = the read of its valid prefix, then EOF *)
     Lemma corrupt_read_split (st : state A S) c d w x :
@@ -456,7 +438,7 @@ Section Iso.
     Proof.
       intros Hf Hp Hr Hc. pose proof (find_conn_id _ _ _ Hf) as Hid.
       destruct (invalid_disconnects_sender_only P cf st c d w x Hf Hp Hc) as (k1 & o1 & act & cl & k2 & o2 & Hd & Ho & E).
-      destruct (valid_prefix_feed Hlocal (c_loader x) d Hr) as [Hvm Hvc].
+      destruct (valid_prefix_feed (c_loader x) d Hr) as [Hvm Hvc].
       cbn [run]. rewrite E.
       (* the sanitised read *)
       cbn [step]. unfold read at 1. rewrite Hf, Hp. unfold msg_part. rewrite Hid, Hvm, Hd, Hvc. cbn [orb].
@@ -504,7 +486,7 @@ Section Iso.
       destruct (run P cf (init k) h1) as [st0 o0] eqn:E. cbn [fst] in st. subst st.
       rewrite (isolation_from st0 c d w x h2 HR Hf Hp Hc Hna). reflexivity.
     Qed.
-  End WithLocality.
+  End Bytes.
 
   (* after the step that found c's stream invalid, nothing c sends matters any more *)
   Theorem nothing_after_corruption (st : state A S) c d w x h2 :
